@@ -132,3 +132,45 @@ fn c25_three_step_histories() {
     kani::assert(read(&a, 0) == view[0] && read(&a, 1) == view[1], "C25.final_contents_agree_with_the_view");
     std::mem::forget(a);
 }
+
+/// thorough tier, 4 operations. Bounded histories (3 operations after any initial map state): every result agrees with the map view. The
+/// single-step obligation above is inductive over the map's own state; this unit additionally covers state an
+/// implementation may keep OUTSIDE the map between operations (a lookup cache, a tombstone list), which a single
+/// step from API-built states cannot reach. Bounded: 3 steps, two keys.
+#[kani::proof]
+#[kani::unwind(6)]
+fn c25_four_step_histories() {
+    let a = CoroutineLocal::default();
+    let mut view = any_map(&a);
+    let mut step = 0;
+    while step < 4 {
+        let i: usize = kani::any(); kani::assume(i < 2);
+        let op: u8 = kani::any(); kani::assume(op < 4);
+        match op {
+            0 => {
+                let nv: u32 = kani::any();
+                let old = a.put(KEYS[i], D(nv));
+                kani::assert(old.as_ref().map(|d| d.0) == view[i], "C25.put_returns_previous_value");
+                std::mem::forget(old);
+                view[i] = Some(nv);
+            }
+            1 => { kani::assert(read(&a, i) == view[i], "C25.get_returns_stored_value"); }
+            2 => {
+                let nv: u32 = kani::any();
+                match a.get_mut::<D>(KEYS[i]) {
+                    Some(d) => { kani::assert(view[i] == Some(d.0), "C25.get_mut_returns_stored_value"); d.0 = nv; view[i] = Some(nv); }
+                    None => kani::assert(view[i].is_none(), "C25.get_mut_none_iff_absent"),
+                }
+            }
+            _ => {
+                let r = a.remove::<D>(KEYS[i]);
+                kani::assert(r.as_ref().map(|d| d.0) == view[i], "C25.remove_returns_the_value");
+                std::mem::forget(r);
+                view[i] = None;
+            }
+        }
+        step += 1;
+    }
+    kani::assert(read(&a, 0) == view[0] && read(&a, 1) == view[1], "C25.final_contents_agree_with_the_view");
+    std::mem::forget(a);
+}
